@@ -540,6 +540,8 @@ def main_check(prop, tier, base_seed, budget, max_runs, workers, verbose=False):
     if verbose:
         for k, v in sorted(foreign.items()):
             print("   foreign", k, v)
+        for r in sorted(results, key=lambda r: -r["wall"])[:3]:
+            print(f"   slowest run {r['seed']}: {r['wall']:.1f}s, {r['n_ops']} ops")
     for l in lines:
         print(l)
     if harness_errors:
